@@ -30,7 +30,7 @@ META = {
               "bases symbolic (explicit or implicit), decoded address symbolic over the whole root space, lookups of "
               "every added object plus one never-added object",
     "outside": "deeper/wider trees; dense windows over non-leaf maps",
-    "assumptions": ["isinstance/range rebound for amaranth_soc.memory"],
+    "assumptions": ["isinstance/range/int rebound for amaranth_soc.memory"],
     "rule": "one evaluation = one solver query; distinct_nontrivial = feasible paths passing the preconditions",
 }
 
@@ -68,6 +68,9 @@ def shapes(tier):
     # windows SMALLER than the parent's alignment granule: their range is padded, and the padding decodes to nothing
     s.append(M(5, 32, 3, R("imp"), W(M(2, 32, 0, R(), R("imp"))), R("imp")))                         # 4-address window, granule 8
     s.append(M(5, 32, 2, W(M(3, 8, 2, R(), R("imp")), sparse=False, mode="imp"), R("imp")))             # dense 4: 2 addresses, granule 4
+    # very large address spaces (the arithmetic is width-agnostic; values above 2**53 do not survive a float)
+    s.append(M(60, 32, 0, W(M(56, 32, 0, R(), R("imp"))), R("imp")))
+    s.append(M(58, 32, 0, R("imp"), W(M(59, 8, 2, R(), R("imp")), sparse=False, mode="imp")))
     if tier == "thorough":
         s.append(M(6, 32, 4, W(M(3, 32, 2, W(M(1, 8, 0, R()), sparse=True, name=False), R("imp")), name=True), R("imp")))
         s.append(M(5, 32, 0, R(), W(leaf32(R(), R())), W(M(3, 16, 1, R()), sparse=False)))
